@@ -4,7 +4,7 @@ SRC = "harness/C09_sets.cpp"
 
 
 def u(name, n, part=0, quick=("asan-cc",), thorough=("asan-cc", "asan-nocc"), qs=4, ts=8):
-    return Unit(name, SRC, defs=[f"-DVF_UNIT={n}", f"-DVF_PART={part}"], flavours={"quick": list(quick), "thorough": list(thorough)},
+    return Unit(name, SRC, defs=[f"-DVF_UNIT={n}", f"-DVF_PART={part}", "-g1"], flavours={"quick": list(quick), "thorough": list(thorough)},
                 shards={"quick": qs, "thorough": ts})
 
 
